@@ -39,6 +39,7 @@ type FuncContract struct {
 	Safety      []string
 	Requires    []*Clause
 	Ensures     []*Clause
+	Asserts     []*Clause // proved at every return (locals visible), then assumed for the ensures; not exported to callers
 	Assigns     []*Clause
 	HasAssigns  bool
 	Decreases   *Clause
@@ -73,6 +74,7 @@ type Axiom struct {
 	Body     ast.Expr
 	Src      string
 	Lemma    bool
+	Quant    bool     // also handed to the solver as a quantified fact with the trigger as pattern (non-looping axioms only)
 	Induct   string   // induction variable (lemmas)
 	Req      ast.Expr // lemma hypothesis (may be nil)
 	Props    []string
@@ -279,7 +281,7 @@ func (cs *ContractSet) parseFile(path string) error {
 			}
 			return &Clause{Kind: kind, Src: rest, Expr: e, Props: append([]string(nil), props...), Line: where}, nil
 		}
-		if cur != nil && kw != "func" && kw != "extern" && kw != "define" && kw != "spec" && kw != "axiom" && kw != "lemma" {
+		if cur != nil && kw != "func" && kw != "extern" && kw != "define" && kw != "spec" && kw != "axiom" && kw != "lemma" && kw != "qaxiom" {
 			cur.Src = append(cur.Src, l)
 		}
 		switch kw {
@@ -327,6 +329,12 @@ func (cs *ContractSet) parseFile(path string) error {
 				return err
 			}
 			cur.Ensures = append(cur.Ensures, c)
+		case "assert":
+			c, err := mk("assert")
+			if err != nil {
+				return err
+			}
+			cur.Asserts = append(cur.Asserts, c)
 		case "assigns":
 			c := &Clause{Kind: "assigns", Src: rest, Props: append([]string(nil), props...), Line: where}
 			for _, part := range splitTop(rest, ',') {
@@ -402,13 +410,13 @@ func (cs *ContractSet) parseFile(path string) error {
 			}
 			cs.Specs[sf.Name] = sf
 			cur = nil
-		case "axiom", "lemma":
+		case "axiom", "lemma", "qaxiom":
 			// axiom name(b bytes, k int) trigger start(b, k): expr
 			m := regexp.MustCompile(`^(\w+)\s*\((.*?)\)\s*trigger\s+(\w+)\((.*?)\)\s*(?:induction\s+(\w+)\s*)?(?:requires\s+(.*?)\s*)?:\s*(.*)$`).FindStringSubmatch(rest)
 			if m == nil {
 				return fmt.Errorf("%s: bad %s: %s", where, kw, rest)
 			}
-			ax := &Axiom{Name: m[1], Trigger: m[3], Src: rest, Lemma: kw == "lemma", Induct: m[5], Props: append([]string(nil), props...)}
+			ax := &Axiom{Name: m[1], Trigger: m[3], Src: rest, Lemma: kw == "lemma", Induct: m[5], Props: append([]string(nil), props...), Quant: kw == "qaxiom"}
 			for _, p := range splitTop(m[2], ',') {
 				fs := strings.Fields(p)
 				if len(fs) == 2 {
